@@ -1019,3 +1019,105 @@ func TestC11Many(t *testing.T) {
 	}
 	run.Exhaustive()
 }
+
+// quotaErr is a concrete error type; richErr an interface that embeds error.
+type quotaErr struct{ Code int }
+
+func (e *quotaErr) Error() string { return fmt.Sprintf("quota %d", e.Code) }
+
+type richErr interface {
+	error
+	Rich() bool
+}
+
+func (e *quotaErr) Rich() bool { return true }
+
+// checkErrType: one host function whose second result is declared as kind,
+// called with fail or not.
+func checkErrType(kind string, fail bool) string {
+	calls := 0
+	var fn interface{}
+	switch kind {
+	case "error":
+		fn = func(n int) (int, error) {
+			calls++
+			if fail {
+				return 0, &quotaErr{n}
+			}
+			return n * 2, nil
+		}
+	case "pointer":
+		fn = func(n int) (int, *quotaErr) {
+			calls++
+			if fail {
+				return 0, &quotaErr{n}
+			}
+			return n * 2, nil
+		}
+	case "interface":
+		fn = func(n int) (int, richErr) {
+			calls++
+			if fail {
+				return 0, &quotaErr{n}
+			}
+			return n * 2, nil
+		}
+	}
+	for _, f := range []string{"reserve(3.9) + 1", "[reserve(3.9), 1]", "$a = reserve(3.9), $a"} {
+		calls = 0
+		p := obs.Parse([]byte(f))
+		if !p.OK() {
+			return "HARNESS: " + f
+		}
+		r := formula.NewRunner()
+		r.SetThis(map[string]interface{}{"reserve": fn})
+		out := obs.Eval(r, context.Background(), p.Src.Expression)
+		what := fmt.Sprintf("%s with reserve declared func(int) (int, %s) returning %v", f, map[string]string{"error": "error", "pointer": "*quotaErr", "interface": "richErr"}[kind], map[bool]string{true: "an error", false: "no error"}[fail])
+		if out.Panic != nil {
+			return what + ": " + out.String()
+		}
+		if calls != 1 {
+			return fmt.Sprintf("%s: %d invocations, want 1", what, calls)
+		}
+		if fail {
+			if out.Err == nil || !strings.Contains(out.Err.Error(), "reserve") {
+				return fmt.Sprintf("%s: %s, want an error naming the function", what, out)
+			}
+			continue
+		}
+		if out.Err != nil {
+			return fmt.Sprintf("%s: %s, want the returned number (6) to be used", what, out)
+		}
+	}
+	return ""
+}
+
+func init() {
+	h.RegisterReplay("c11-errtype", func(raw json.RawMessage) string {
+		c, err := h.Decode[[2]string](raw)
+		if err != nil {
+			return "bad replay: " + err.Error()
+		}
+		return checkErrType(c[0], c[1] == "fail")
+	})
+}
+
+// TestC11ErrorTypes: "a returned error aborts evaluation" - and only a returned error.
+func TestC11ErrorTypes(t *testing.T) {
+	run := h.Begin("C11", "error-types", "enumerated: host functions whose second result is declared as error, as a pointer type that implements error, or as an interface that embeds error, returning an error or none, called inside '+', a list and an assignment; oracle: one invocation; no error returned => the returned number is used, an error returned => evaluation fails with an error naming the function; every case non-trivial")
+	defer run.End(t)
+	if i, _ := h.Shard(); i != 0 {
+		return
+	}
+	for _, kind := range []string{"error", "pointer", "interface"} {
+		for _, fail := range []bool{false, true} {
+			c := [2]string{kind, map[bool]string{true: "fail", false: "ok"}[fail]}
+			run.Count(true, kind)
+			run.Sample(kind, c[0]+"/"+c[1])
+			if msg := checkErrType(kind, fail); msg != "" {
+				run.Fail("c11-errtype", c, msg)
+			}
+		}
+	}
+	run.Exhaustive()
+}
